@@ -256,11 +256,16 @@ func (r *brun) member(d []byte, q uint64, useLatest bool) {
 	raw, _ := json.Marshal(mr)
 	var back protocol.MembershipResult
 	werr := json.Unmarshal(raw, &back)
-	ev["wire_fields"] = werr == nil && reflect.DeepEqual(mr.Hyper, back.Hyper) &&
-		(len(mr.History) == 0 && len(back.History) == 0 || reflect.DeepEqual(mr.History, back.History)) &&
-		mr.Exists == back.Exists && mr.CurrentVersion == back.CurrentVersion &&
-		mr.QueryVersion == back.QueryVersion && mr.ActualVersion == back.ActualVersion &&
-		bytes.Equal(mr.KeyDigest, back.KeyDigest)
+	// every field of the in-process proof must arrive unchanged on the other side of the wire
+	var histSer map[string]hashing.Digest
+	if proof.HistoryProof != nil {
+		histSer = proof.HistoryProof.AuditPath.Serialize()
+	}
+	ev["wire_fields"] = werr == nil && reflect.DeepEqual(map[string]hashing.Digest(proof.HyperProof.AuditPath), back.Hyper) &&
+		(len(histSer) == 0 && len(back.History) == 0 || reflect.DeepEqual(histSer, back.History)) &&
+		proof.Exists == back.Exists && proof.CurrentVersion == back.CurrentVersion &&
+		proof.QueryVersion == back.QueryVersion && proof.ActualVersion == back.ActualVersion &&
+		bytes.Equal(proof.KeyDigest, back.KeyDigest)
 	ev["hyper"] = r.pathTerms(back.Hyper)
 	ev["history"] = r.pathTerms(back.History)
 
@@ -346,7 +351,7 @@ func (r *brun) incr(s, e uint64, fork *brun, forkAt int, rng *rand.Rand) {
 	raw, _ := json.Marshal(resp)
 	var back protocol.IncrementalResponse
 	werr := json.Unmarshal(raw, &back)
-	ev["wire_fields"] = werr == nil && back.Start == resp.Start && back.End == resp.End && reflect.DeepEqual(back.AuditPath, resp.AuditPath)
+	ev["wire_fields"] = werr == nil && back.Start == proof.Start && back.End == proof.End && reflect.DeepEqual(back.AuditPath, proof.AuditPath.Serialize())
 	ev["rs"] = back.Start
 	ev["re"] = back.End
 	ev["path"] = r.pathTerms(back.AuditPath)
@@ -614,6 +619,9 @@ func randomSplits(rng *rand.Rand, n int, maxBulk int) ([]int, []bool) {
 		ln := 1
 		if rng.Intn(2) == 0 {
 			ln = 1 + rng.Intn(maxBulk)
+		}
+		if rng.Intn(12) == 0 {
+			ln = 8 + rng.Intn(33) // a large bulk: more leaves than one 4-level batch holds
 		}
 		if ln > n {
 			ln = n
